@@ -1084,6 +1084,13 @@ def unify_types(t1: tp.Type, t2: tp.Type, factory,
             return {}
 
         if t_arg2.is_wildcard():
+            if t_arg1.variance != t_arg2.variance:
+                # Projections of different kinds never match.
+                return {}
+            if t_arg1.bound is None or t_arg2.bound is None:
+                if t_arg1.bound is None and t_arg2.bound is None:
+                    continue
+                return {}
             t_arg2 = t_arg2.bound
             t_arg1 = t_arg1.bound
 
